@@ -88,6 +88,20 @@ Theorem C14_season_longitude : forall k y,
     Rabs (lon - (IZR k * 90 + 180 * IZR m)) < 25 / 10000000.
 Proof. exact season_longitude. Qed.
 
+(* the two cases spelled out: within 2.5e-6 degree of the target longitude k*90 or of its antipode
+   k*90 + 180, modulo whole turns *)
+Theorem C14_season_target_or_antipode : forall k y,
+  (0 <= k <= 3)%Z -> (-1000 <= y <= 3000)%Z -> CtorExact (Dreg (jde0 k y)) ->
+  let v := Sun_get_equinox_solstice Rops (VInt y) (VStr (season_name k)) in
+  v = VErr OutOfFuel \/
+  exists t lon lat r (n : Z),
+    v = epo t /\
+    Sun_apparent_geocentric_position Rops (epo t) (VBool true) = VTuple [ang lon; ang lat; VFloat r] /\
+    0 <= lon < 360 /\
+    (Rabs (lon - (IZR k * 90 + 360 * IZR n)) < 25 / 10000000 \/
+     Rabs (lon - (IZR k * 90 + 180 + 360 * IZR n)) < 25 / 10000000).
+Proof. exact season_target_or_antipode. Qed.
+
 (* the same in the loop's own terms: result within the reachable region, |58 sin(k*90 - lon)| <= 2.5e-6 *)
 Theorem C14_season_result : forall k y,
   (0 <= k <= 3)%Z -> (-1000 <= y <= 3000)%Z -> CtorExact (Dreg (jde0 k y)) ->
@@ -206,3 +220,4 @@ Redirect "C14_season_structure.assumptions" Print Assumptions C14_season_structu
 Redirect "C14_callee_shapes.assumptions" Print Assumptions C14_callee_shapes.
 Redirect "C14_season_longitude.assumptions" Print Assumptions C14_season_longitude.
 Redirect "C14_season_result.assumptions" Print Assumptions C14_season_result.
+Redirect "C14_season_target_or_antipode.assumptions" Print Assumptions C14_season_target_or_antipode.
